@@ -106,6 +106,22 @@ def interp_shard(tier):
                            "expdecay": pv * math.exp(-el / TAU), "expratedecay": pv * math.exp(-el * RATE)}[name]
                     if abs(r - exp) > 1e-5 * max(1, abs(exp)):
                         tally.violation(f"interp-formula:{name}", {"dt": dt, "prev": pv, "next": nx, "sample_at": el}, f"{name} = {r}, closed form {exp}", exp, r)
+    # the selecting interpolations hand back the selected bracket value itself, whatever the other one holds (records use inf / nan
+    # for "never observed": an unselected non-finite neighbour must not leak into the result)
+    special = (0.0, 1.5, float("inf"), float("-inf"), float("nan"))
+    for dt in (1.0, 0.5):
+        for name in ("nearest", "previous", "next"):
+            ifn, ikw = INTERPS[name]
+            for fr in (0.0, 0.25, 0.5, 0.75, 1.0):
+                for pv, nx in itertools.product(special, special):
+                    tally.add("evaluations")
+                    r = float(ifn(torch.tensor([pv]), torch.tensor([nx]), torch.tensor([dt * fr]), dt, **ikw)[0])
+                    exp = {"previous": pv, "next": nx, "nearest": nx if fr > 0.5 else pv}[name]
+                    if not (r == exp or (r != r and exp != exp)):
+                        tally.violation(f"interp-select:{name}:non-finite-neighbour", {"dt": dt, "prev": str(pv), "next": str(nx), "sample_at": dt * fr},
+                                        f"{name} = {r}, the selected bracket value is {exp}", str(exp), str(r))
+                    if pv != nx:
+                        tally.mark("nontrivial", ("select", dt, name, fr, str(pv), str(nx)))
     tally.sample({"part": "interp/extrap", "pairs": PAIRS[:3]})
     return tally
 
@@ -309,6 +325,25 @@ def vp_shard(tier):
             if D[(c, a, cc)] > D[(c, a, b)] + D[(c, b, cc)] + 1e-5:
                 tally.violation("vp:triangle", {"t0": a, "t1": b, "t2": cc, "cost": cs},
                                 f"d(a,c)={D[(c, a, cc)]} > d(a,b)+d(b,c)={D[(c, a, b)] + D[(c, b, cc)]}", None, None)
+    # spike times far from zero that differ by a few microseconds (1000 ms +- 2^-8): distinct trains are at a positive distance,
+    # the same value the brute-force matching gives - closeness relative to the magnitude of the times is not identity
+    far = (1000.0, 1000.0 + 2.0 ** -8, 2000.0, 2000.0 + 2.0 ** -7, 3000.0)
+    ftrains = [tuple(c) for k in range(1, 4) for c in itertools.combinations(far, k)]
+    for c in (1.0, 100.0):
+        for a in ftrains:
+            for b in ftrains:
+                tally.add("evaluations")
+                case = {"t0": a, "t1": b, "cost": c, "part": "large spike times, small jitter"}
+                try:
+                    d = float(inferno.victor_purpura_pair_dist(torch.tensor(a), torch.tensor(b), c).reshape(-1)[0])
+                except Exception as ex:
+                    tally.violation(f"vp:far-times:exception:{type(ex).__name__}", case, repr(ex))
+                    continue
+                ref = vp_ref(a, b, c)
+                if abs(d - ref) > 1e-4:
+                    tally.violation("vp:far-times:value", case, f"d={d}, brute-force matching reference {ref}", ref, d)
+                if a != b:
+                    tally.mark("nontrivial", ("far", c, a, b))
     tally.sample({"part": "victor-purpura", "trains": len(trains), "costs": [str(c) for c in costs]})
     return tally
 
